@@ -132,6 +132,17 @@ def noRival (s : CliSpec) (o : OptSpec) (argv : List String) : Bool :=
   o.group == "" ||
   argv.all (fun t => match optOf s t with | some o' => o'.group != o.group || o' == o | none => true)
 
+/-- (decidable form of `numericBranch`, Lemmas/DispatchNumeric.lean) the sub-command's only positional is the
+composed action `c`, and the sub-parser chosen when the first token is a number has positionals `[n, d]`: one
+typed token and an optional typed token -/
+def numericBranchB (s : CliSpec) (c n d : OptSpec) : Bool :=
+  positionals s == [c] && c.action == "compose_two_parsers" && c.arity == .star && !c.nested &&
+  (match c.compose with | [p1, _] => subPositionals s p1 == [n, d] | _ => false) &&
+  composeOpt s c.dest == some c &&
+  n.arity == .one && d.arity == .opt && n.action != "PHPArgs" && n.action != "compose_two_parsers" &&
+  d.action != "PHPArgs" && d.action != "compose_two_parsers" && n.dest != d.dest &&
+  s.opts.all (fun o => o.positional || !o.required)
+
 /-! ### classes of sub-commands for the generic theorems -/
 
 /-- the argument tokens of a command line, in order -/
